@@ -111,17 +111,17 @@ def search(ctx):
             scs = scale_scatterer(sc, l)
             h = calc_holo(det, sc, theory=mk(), **opt).values
             hs = calc_holo(dets, scs, theory=mk(), **opts).values
-            if _rel(hs, h) > tol:
+            if not (_rel(hs, h) <= tol):
                 ctx.violation("C04:holo-scaling:%s" % name, "multiplying every length by %g changed the hologram (rel %.3g)" % (l, _rel(hs, h)),
                               dict(kind="holo", **info))
             f = calc_field(det, sc, theory=mk(), **opt).values
             fs = calc_field(dets, scs, theory=mk(), **opts).values
-            if _rel(fs, f) > max(tol, 1e-10 if not dyadic else 0):
+            if not (_rel(fs, f) <= max(tol, 1e-10 if not dyadic else 0)):
                 ctx.violation("C04:field-scaling:%s" % name, "multiplying every length by %g changed the field (rel %.3g)" % (l, _rel(fs, f)),
                               dict(kind="field", **info))
             # index rescaling (n, n_m, L) -> (n/n_m, 1, L/n_m)
             hr = calc_holo(det, reindex_scatterer(sc, T.NMED), theory=mk(), medium_index=1.0, illum_wavelen=T.WL / T.NMED, illum_polarization=pol).values
-            if _rel(hr, h) > max(tol, 1e-9):
+            if not (_rel(hr, h) <= max(tol, 1e-9)):
                 ctx.violation("C04:index-rescaling:%s" % name, "(n, n_m, L) -> (n/n_m, 1, L/n_m) changed the hologram (rel %.3g)" % _rel(hr, h),
                               dict(kind="index", **info))
             # scattering matrices (far field): unchanged
@@ -129,7 +129,7 @@ def search(ctx):
                 dp = detector_points(theta=rng.uniform(0.1, 3.0, size=4), phi=rng.uniform(0, 6.28, size=4))
                 s0 = calc_scat_matrix(dp, sc, medium_index=T.NMED, illum_wavelen=T.WL, theory=mk()).values
                 s1 = calc_scat_matrix(dp, scs, medium_index=T.NMED, illum_wavelen=T.WL * l, theory=mk()).values
-                if _rel(s1, s0) > max(tol, 1e-10):
+                if not (_rel(s1, s0) <= max(tol, 1e-10)):
                     ctx.violation("C04:scat-matrix-scaling:%s" % name, "scaling lengths by %g changed the scattering matrix (rel %.3g)" % (l, _rel(s1, s0)),
                                   dict(kind="smat", **info))
             # cross sections: multiplied by l^2 (asymmetry parameter unchanged)
